@@ -491,6 +491,10 @@ class DiscreteFourierTransform(DiscreteFourierTransformBase):
         effort = flags[0] if flags else 'measure'
 
         direction = 'forward' if self.sign == '-' else 'backward'
+        if not self.halfcomplex and is_real_dtype(x.dtype):
+            # FFTW can only do half-complex transforms of real input, hence
+            # the full transform is computed from complex data
+            x = x.astype(out.dtype)
         self._fftw_plan = pyfftw_call(
             x, out, direction=direction, axes=self.axes,
             halfcomplex=self.halfcomplex, planning_effort=effort,
@@ -677,6 +681,11 @@ class DiscreteFourierTransformInverse(DiscreteFourierTransformBase):
             # FFTW overwrites the input of multi-dimensional
             # complex-to-real transforms
             x = x.copy()
+        real_out = not self.halfcomplex and is_real_dtype(out.dtype)
+        if real_out:
+            # FFTW can only do half-complex transforms to real output, hence
+            # the full transform is computed into a complex array
+            out_real, out = out, np.empty(out.shape, dtype=x.dtype)
         self._fftw_plan = pyfftw_call(
             x, out, direction=direction, axes=self.axes,
             halfcomplex=self.halfcomplex, planning_effort=effort,
@@ -686,6 +695,10 @@ class DiscreteFourierTransformInverse(DiscreteFourierTransformBase):
         # does not offer a way to do this.
         if self.sign == '-':
             out /= np.prod(np.take(self.domain.shape, self.axes))
+
+        if real_out:
+            out_real[:] = out.real
+            out = out_real
 
         return out
 
